@@ -6,6 +6,10 @@
 //	               (readMetaFrame) + newWriterAndRequest -> httpProtoSet -> Write;  result as for rd
 //	sp <fields> <fin> <pieces>         the same through the REAL bfe_spdy Framer.ReadFrame (SYN_STREAM, uncompressed block)
 //	               + newWriterAndRequest
+//	h2c <hexblock>.<es>,<hexblock>.<es>,…   one HTTP/2 CONNECTION: a sequence of HEADERS frames with RAW HPACK blocks (every
+//	               representation kind: indexed static/dynamic, literal with/without/never indexing with literal or indexed
+//	               name, table size updates) through ONE real Framer + hpack decoder; every request that reaches
+//	               newWriterAndRequest is written; result: per frame `reject` | `dead` | `<R> ok|err <hex>`, joined by `/`
 //	rd <hex raw>   raw HTTP/1 bytes -> the REAL bfe_http.ReadRequest -> bfe_server.httpProtoSet -> Write
 //	               result: reject | <R of the Request the frontend built> ok|err <hex bytes>
 package main
@@ -164,6 +168,48 @@ func execFrame(kind, fields, end, pieces string) string {
 	return r.Encode() + " " + writeOut(out)
 }
 
+// execConn: a sequence of HEADERS frames on one HTTP/2 connection.
+func execConn(spec string) string {
+	var blocks [][]byte
+	var ends []bool
+	for _, fr := range strings.Split(spec, ",") {
+		be := strings.Split(fr, ".")
+		if len(be) != 2 || (be[1] != "0" && be[1] != "1") {
+			return "bad-op"
+		}
+		b, ok := vh.UnHex(be[0])
+		if !ok {
+			return "bad-op"
+		}
+		blocks = append(blocks, b)
+		ends = append(ends, be[1] == "1")
+	}
+	if len(blocks) == 0 || len(blocks) > 8 {
+		return "bad-op"
+	}
+	var out []string
+	for _, res := range bfe_http2.VerifC25Conn(blocks, ends) {
+		switch res.Kind {
+		case "ok":
+			if len(res.Req.Trailer) > 1 {
+				out = append(out, "reject")
+				continue
+			}
+			o := new(bfe_http.Request)
+			*o = *res.Req
+			bfe_server.VerifHttpProtoSet(o)
+			r := c25lib.FromRequest(o, "", false)
+			o.Body = c25lib.NewPieceReader(nil)
+			out = append(out, r.Encode()+" "+writeOut(o))
+		case "stream-error":
+			out = append(out, "reject")
+		default:
+			out = append(out, "dead")
+		}
+	}
+	return strings.Join(out, "/")
+}
+
 func exec(op string) string {
 	f := strings.Split(op, " ")
 	switch {
@@ -173,6 +219,8 @@ func exec(op string) string {
 		return execRd(f[1])
 	case len(f) == 4 && (f[0] == "h2" || f[0] == "sp"):
 		return execFrame(f[0], f[1], f[2], f[3])
+	case len(f) == 2 && f[0] == "h2c":
+		return execConn(f[1])
 	}
 	return "bad-op"
 }
@@ -686,7 +734,154 @@ func genFrame(r *vh.Rand, kind string) string {
 	return kind + " " + encFields(fs) + " " + end + " " + pieces
 }
 
+// ---- raw HPACK (RFC 7541), no Huffman
+func hpInt(bits uint, first byte, n int) []byte {
+	max := 1<<bits - 1
+	if n < max {
+		return []byte{first | byte(n)}
+	}
+	out := []byte{first | byte(max)}
+	n -= max
+	for n >= 128 {
+		out = append(out, byte(n%128+128))
+		n /= 128
+	}
+	return append(out, byte(n))
+}
+
+func hpStr(s string) []byte { return append(hpInt(7, 0, len(s)), s...) }
+
+func hpIndexed(i int) []byte { return hpInt(7, 0x80, i) }
+
+// kind: 0 = incremental indexing, 1 = without indexing, 2 = never indexed; nameIdx 0 = literal name
+func hpLiteral(kind, nameIdx int, name, value string) []byte {
+	var b []byte
+	switch kind {
+	case 0:
+		b = hpInt(6, 0x40, nameIdx)
+	case 1:
+		b = hpInt(4, 0x00, nameIdx)
+	default:
+		b = hpInt(4, 0x10, nameIdx)
+	}
+	if nameIdx == 0 {
+		b = append(b, hpStr(name)...)
+	}
+	return append(b, hpStr(value)...)
+}
+
+func hpSize(n int) []byte { return hpInt(5, 0x20, n) }
+
+var hostileNames = []string{"x-a: 1\r\nx-injected", "x\r\nevil", "X-Upper", "x y", "x\x00", "", "x(y"}
+var hostileValues = []string{"a\r\nEvil: 1", "a\nb", "a\rb", "a\x00b", "a\x7f", "\r\n\r\nGET /admin HTTP/1.1\r\nHost: x\r\n\r\n"}
+
+type dynEnt struct{ name, value string }
+
+// genConn: 2-5 HEADERS frames on one connection; literals with incremental indexing (a third of them hostile) feed
+// the dynamic table, later frames reference table entries by index (whole field or name only).
+func genConn(r *vh.Rand) string {
+	var dyn []dynEnt // newest first, as the decoder sees it when nothing was evicted
+	add := func(n, v string) { dyn = append([]dynEnt{{n, v}}, dyn...) }
+	nf := r.Range(2, 5)
+	var frames []string
+	for i := 0; i < nf; i++ {
+		var b []byte
+		if r.Chance(1, 8) {
+			sz := []int{0, 64, 4096, 100}[r.Intn(4)]
+			b = append(b, hpSize(sz)...)
+			if sz < 4096 {
+				dyn = nil
+			}
+		}
+		// a dynamic entry whose name is a pseudo header may serve as that pseudo header
+		pseudoFromDyn := func(name string) bool {
+			if !r.Chance(1, 3) {
+				return false
+			}
+			for j, e := range dyn {
+				if e.name == name {
+					b = append(b, hpIndexed(62+j)...)
+					return true
+				}
+			}
+			return false
+		}
+		lit := func(staticIdx int, name, value string) {
+			kind := r.Intn(3)
+			b = append(b, hpLiteral(kind, staticIdx, "", value)...)
+			if kind == 0 {
+				add(name, value)
+			}
+		}
+		if !pseudoFromDyn(":method") {
+			switch r.Intn(5) {
+			case 0:
+				b = append(b, hpIndexed(3)...)
+			case 1:
+				lit(2, ":method", r.Pick("PUT", "DELETE", "GET /x", "GE\r\nT", "G\x00T"))
+			default:
+				b = append(b, hpIndexed(2)...)
+			}
+		}
+		b = append(b, hpIndexed(6+r.Intn(2))...)
+		if !pseudoFromDyn(":path") {
+			switch r.Intn(4) {
+			case 0:
+				lit(4, ":path", r.Pick("/a/b?c=d", "/a b", "/x\r\ny", "*", "/%41"))
+			case 1:
+				b = append(b, hpIndexed(5)...)
+			default:
+				b = append(b, hpIndexed(4)...)
+			}
+		}
+		if !pseudoFromDyn(":authority") && !r.Chance(1, 6) {
+			lit(1, ":authority", r.Pick("example.com", "a:8080", "a\r\nEvil: 1", "a b"))
+		}
+		nreg := r.Intn(4)
+		for k := 0; k < nreg; k++ {
+			switch r.Intn(7) {
+			case 0, 1: // new literal, incremental indexing
+				n, v := strings.ToLower(token(r, 1, 8)), visible(r, 0, 8)
+				if r.Chance(1, 3) {
+					if r.Bool() {
+						n = r.Pick(hostileNames...)
+					} else {
+						v = r.Pick(hostileValues...)
+					}
+				}
+				b = append(b, hpLiteral(0, 0, n, v)...)
+				add(n, v)
+			case 2: // literal not indexed
+				b = append(b, hpLiteral(1+r.Intn(2), 0, strings.ToLower(token(r, 1, 8)), visible(r, 0, 8))...)
+			case 3, 4: // indexed reference to a dynamic entry (valid or hostile, possibly stale)
+				if len(dyn) > 0 {
+					b = append(b, hpIndexed(62+r.Intn(len(dyn)+r.Intn(2)))...)
+				} else {
+					b = append(b, hpIndexed([]int{16, 19, 32, 58, 61, 62}[r.Intn(6)])...)
+				}
+			case 5: // literal with the NAME taken from a dynamic entry
+				if len(dyn) > 0 {
+					kind := r.Intn(3)
+					j := r.Intn(len(dyn))
+					v := visible(r, 0, 6)
+					b = append(b, hpLiteral(kind, 62+j, "", v)...)
+					if kind == 0 {
+						add(dyn[j].name, v)
+					}
+				}
+			case 6: // static table entries
+				b = append(b, hpIndexed([]int{16, 17, 19, 23, 28, 31, 33, 38, 51, 58}[r.Intn(10)])...)
+			}
+		}
+		frames = append(frames, vh.Hex(b)+"."+r.Pick("1", "1", "0"))
+	}
+	return "h2c " + strings.Join(frames, ",")
+}
+
 func gen(r *vh.Rand) string {
+	if r.Chance(1, 8) {
+		return genConn(r)
+	}
 	switch r.Intn(14) {
 	case 10, 11:
 		return genFrame(r, "h2")
@@ -772,6 +967,27 @@ func pre(emit func(string), thorough bool) {
 	emit(sp("GET", "/", "a", "x", "1\x002"))
 	emit(sp("G(T", "/", "a"))
 	emit(sp("GET", "/", "a", "x(y", "1"))
+	// HTTP/2 connection-level: a refused literal stays in the HPACK dynamic table; referencing it by index later
+	// must be refused again (name / value / pseudo-header value variants; a valid entry for comparison)
+	conn := func(frames ...[]byte) string {
+		var fs []string
+		for _, f := range frames {
+			fs = append(fs, vh.Hex(f)+".1")
+		}
+		return "h2c " + strings.Join(fs, ",")
+	}
+	cat := func(parts ...[]byte) []byte {
+		var b []byte
+		for _, p := range parts {
+			b = append(b, p...)
+		}
+		return b
+	}
+	head := cat(hpIndexed(2), hpIndexed(7), hpIndexed(4), hpLiteral(1, 1, "", "example.com"))
+	emit(conn(cat(head, hpLiteral(0, 0, "x-a: 1\r\nx-injected", "yes")), cat(head, hpIndexed(62))))
+	emit(conn(cat(head, hpLiteral(0, 0, "x-v", "a\r\nEvil: 1")), cat(head, hpIndexed(62)), cat(head, hpLiteral(1, 62, "", "fine"))))
+	emit(conn(cat(hpLiteral(0, 2, "", "GET / HTTP/1.1\r\nX: y\r\n\r\nGET"), hpIndexed(7), hpIndexed(4)), cat(hpIndexed(62), hpIndexed(7), hpIndexed(4), hpLiteral(1, 1, "", "a"))))
+	emit(conn(cat(head, hpLiteral(0, 0, "x-ok", "1")), cat(head, hpIndexed(62), hpLiteral(0, 62, "", "2")), cat(hpSize(0), head, hpIndexed(62))))
 	// the same through the real ReadRequest
 	for _, raw := range []string{
 		"GE\rT / HTTP/1.1\r\nHost: a\r\n\r\n",
